@@ -95,7 +95,19 @@ func c06Gen(rng *verifsim.RNG, idx int, tier string) *Plan {
 				// exactly on a whole 100 ms boundary
 				at = bt / (100 * nsMs) * (100 * nsMs)
 			}
-			p.Actions = append(p.Actions, rsAction(at, src))
+			a := rsAction(at, src)
+			if rng.Bool(0.15) {
+				// a second solicitation sitting in the socket right behind this
+				// one (the listener hands both over before the scheduler runs):
+				// one of them from ::, the other from a host
+				other := "::"
+				if src == "::" {
+					other = hostAddr(rng.Intn(4))
+				}
+				t := rsAction(at, other)
+				a.Then = &t
+			}
+			p.Actions = append(p.Actions, a)
 			bt += int64(rng.Dur(0, 700*time.Millisecond))
 		}
 	}
